@@ -11,6 +11,8 @@ import (
 	"github.com/drand/drand/v2/common/key"
 	"github.com/drand/drand/v2/crypto"
 	dhttp "github.com/drand/drand/v2/handler/http"
+	"github.com/drand/drand/v2/internal/chain/beacon"
+	"github.com/drand/drand/v2/internal/chain/memdb"
 	"github.com/drand/drand/v2/internal/zzfake"
 	zz "github.com/drand/drand/v2/internal/zzverif"
 	"github.com/drand/drand/v2/protobuf/drand"
@@ -25,16 +27,30 @@ type zzChain struct {
 }
 
 func zzMakeChain(sch *crypto.Scheme, id string, withGroup bool) *zzChain {
-	pair := zzfake.KeyPair(sch, "node0.example:4000", "c19-"+id)
-	bp := &BeaconProcess{beaconID: common.GetCanonicalBeaconID(id), priv: pair, log: zzfake.Logger(), version: common.GetAppVersion()}
+	return zzMakeChainGen(sch, id, withGroup, "")
+}
+
+// zzMakeChainGen: gen distinguishes successive chains brought up under the same beacon id (new keys, new hash).
+func zzMakeChainGen(sch *crypto.Scheme, id string, withGroup bool, gen string) *zzChain {
+	pair := zzfake.KeyPair(sch, "node0.example:4000", "c19-"+id+gen)
+	bp := &BeaconProcess{beaconID: common.GetCanonicalBeaconID(id), priv: pair, log: zzfake.Logger(), version: common.GetAppVersion(),
+		exitCh: make(chan bool, 1), closeDKGChannel: func() {}}
 	c := &zzChain{id: common.GetCanonicalBeaconID(id), bp: bp}
 	if withGroup {
-		ep := zzfake.Deal(sch, 1, 1, "c19-secret-"+id, "c19-poly-"+id)
+		ep := zzfake.Deal(sch, 1, 1, "c19-secret-"+id+gen, "c19-poly-"+id+gen)
 		g := zzfake.Group(sch, []*key.Pair{pair}, 1, 30*time.Second, 1700000000, ep, id)
-		g.GenesisSeed = []byte("seed-" + id)
+		g.GenesisSeed = []byte("seed-" + id + gen)
 		bp.group = g
 		c.hash = chain2.NewChainInfo(g).Hash()
 		bp.chainHash = c.hash
+		// a running chain has a beacon handler (what Shutdown stops)
+		clk := zzfake.NewClock(1700000000 + 1000)
+		hd, err := beacon.NewHandler(context.Background(), &zzfake.Client{Clock: clk}, memdb.NewStore(10),
+			&beacon.Config{Public: g.Nodes[0], Share: ep.Share(sch, 0), Group: g, Clock: clk}, zzfake.Logger(), common.GetAppVersion())
+		if err != nil {
+			panic(err)
+		}
+		bp.beacon = hd
 	}
 	return c
 }
@@ -51,6 +67,7 @@ func ZZ_C19_routing() {
 	dd := &DrandDaemon{beaconProcesses: map[string]*BeaconProcess{}, chainHashes: map[string]string{}, log: zzfake.Logger(), handler: h, version: common.GetAppVersion()}
 	chains := []*zzChain{zzMakeChain(sch, "", true), zzMakeChain(sch, "beta", true), zzMakeChain(sch, "fresh", false)}
 	running := make([]bool, 3)
+	var staleHashes [][]byte
 	add := func(i int) {
 		c := chains[i]
 		dd.state.Lock()
@@ -63,8 +80,10 @@ func ZZ_C19_routing() {
 	}
 	remove := func(i int) {
 		c := chains[i]
-		dd.RemoveBeaconHandler(context.Background(), c.id, c.bp)
-		dd.RemoveBeaconProcess(context.Background(), c.id, c.bp)
+		// the operator's stop command: RemoveBeaconHandler, BeaconProcess.Stop, RemoveBeaconProcess
+		_, err := dd.Shutdown(context.Background(), &drand.ShutdownRequest{Metadata: &drand.Metadata{BeaconID: c.id}})
+		zz.Assert("operator_can_stop_a_running_chain", err == nil)
+		zz.Quiesce()
 		running[i] = false
 	}
 	add(0)
@@ -87,10 +106,19 @@ func ZZ_C19_routing() {
 			}
 		case 3:
 			if !running[0] {
+				chains[0] = zzMakeChainGen(sch, "", true, "") // the same chain is loaded again (a stopped process is not reused)
 				add(0)
 			}
 		case 4:
 			if !running[1] {
+				if zz.Bool(fmt.Sprintf("hist%d.beta_is_a_new_chain", j)) {
+					// another chain (new keys, new genesis seed, new hash) is brought up under the id of the stopped one:
+					// the stopped chain's hash must not resolve any more
+					staleHashes = append(staleHashes, chains[1].hash)
+					chains[1] = zzMakeChainGen(sch, "beta", true, "-second")
+				} else {
+					chains[1] = zzMakeChainGen(sch, "beta", true, "")
+				}
 				add(1)
 			}
 		}
@@ -113,7 +141,7 @@ func ZZ_C19_routing() {
 		case 5:
 			md.BeaconID = zz.String("id.sym1", 1)
 		}
-		hashKind = zz.Choose("hash.kind", 5) // 0 absent, 1 default chain's, 2 beta's, 3 unknown symbolic 32 bytes, 4 malformed short
+		hashKind = zz.Choose("hash.kind", 6) // 0 absent, 1 default chain's, 2 beta's, 3 unknown symbolic 32 bytes, 4 malformed short, 5 hash of a chain that was stopped and replaced under its id
 		switch hashKind {
 		case 1:
 			md.ChainHash = chains[0].hash
@@ -124,6 +152,9 @@ func ZZ_C19_routing() {
 			zz.Assume(!bytes.Equal(md.ChainHash, chains[0].hash) && !bytes.Equal(md.ChainHash, chains[1].hash))
 		case 4:
 			md.ChainHash = zz.Bytes("hash.short", 2)
+		case 5:
+			zz.Assume(len(staleHashes) > 0)
+			md.ChainHash = staleHashes[0]
 		}
 	}
 	wantID := ""
@@ -190,6 +221,12 @@ func ZZ_C19_routing() {
 		_, inTable := dd.chainHashes[hx]
 		dd.state.RUnlock()
 		zz.Assert("hash_table_tracks_running_chains", inTable == running[i])
+	}
+	for _, sh := range staleHashes {
+		dd.state.RLock()
+		_, still := dd.chainHashes[fmt.Sprintf("%x", sh)]
+		dd.state.RUnlock()
+		zz.Assert("hash_of_a_stopped_chain_stops_resolving", !still)
 	}
 	dd.state.RLock()
 	_, defEntry := dd.chainHashes[common.DefaultChainHash]
